@@ -311,7 +311,25 @@ def check_C03(ctx):
     return finish(ctx)
 
 
-CHECKS = {"C01": check_C01, "C02": check_C02, "C03": check_C03}
+def check_C04(ctx):
+    ctx.rule = ("TLC computes, for every ordered pair of terms of every explored builder state (every DAG on 3-4 ids x annotation histories; "
+                "simulated 8-id pipelines), the structural arguments of the 8 similarities (common/union ancestors, BFS distance, annotation overlap per kind) "
+                "and checks their symmetry and bounds; the harness evaluates the documented formula table in f64 and compares with Builtins::*, "
+                "Builtins::new(name, kind) incl. aliases, the concrete structs and HpoTerm::similarity_score for 8 algorithms x 3 kinds, both argument orders; "
+                "non-trivial = behaviour with at least one edge and one fact")
+    outs = [tlc(ctx, "mc/MC_Sim3.cfg", "mc/MC_AnnotHist.tla")["out"]]
+    if not ctx.quick:
+        outs.append(tlc(ctx, "mc/MC_Sim4.cfg", "mc/MC_AnnotHist.tla", workers=14, timeout=1800)["out"])
+    outs.append(tlc(ctx, "mc/Sim_FullPairs.cfg", "mc/MC_Full.tla", workers=4 if ctx.quick else 8, simulate=40 if ctx.quick else 600, depth=45)["out"])
+    allout = concat(ctx, outs, "c04-lines.txt")
+    s = hv(ctx, "replay-sim", prop="C04", **{"in": allout})
+    ctx.traces += s.get("cases", 0)
+    ctx.assumptions += ["ln/exp and f32 rounding are outside TLA+: formulas are evaluated by the harness in f64 from TLC's exact arguments, tolerance rel 1e-4 / abs 1e-5",
+                        "formula table follows crate documentation + doctest-pinned conventions (union of ancestors excludes the terms themselves)"]
+    return finish(ctx)
+
+
+CHECKS = {"C01": check_C01, "C02": check_C02, "C03": check_C03, "C04": check_C04}
 
 
 def run_check(prop, tier, seed):
